@@ -23,9 +23,9 @@ ASSUMPTIONS = [
 
 
 @st.composite
-def vector(draw, min_n=2, max_n=80, max_offset=7):
+def vector(draw, min_n=2, max_n=80, max_offset=7, tiny=False):
     n = draw(st.integers(min_n, max_n))
-    kind = draw(st.sampled_from(["continuous", "continuous", "ties", "offset", "smallint", "almost_constant"]))
+    kind = draw(st.sampled_from(["continuous", "continuous", "ties", "offset", "smallint", "almost_constant"] + (["tiny_unit", "huge_unit"] if tiny else [])))
     if kind == "continuous":
         v = [t / 1000.0 for t in draw(st.lists(st.integers(-5000, 5000), min_size=n, max_size=n))]
     elif kind == "ties":
@@ -35,6 +35,10 @@ def vector(draw, min_n=2, max_n=80, max_offset=7):
         v = [off + t / 1000.0 for t in draw(st.lists(st.integers(-5000, 5000), min_size=n, max_size=n))]
     elif kind == "smallint":
         v = [float(t) for t in draw(st.lists(st.integers(0, 5), min_size=n, max_size=n))]
+    elif kind in ("tiny_unit", "huge_unit"):
+        # the same kind of data recorded in a very small or very large unit (seconds as years, metres as nanometres)
+        unit = draw(st.sampled_from([1e-9, 1e-12, 1e-15])) if kind == "tiny_unit" else draw(st.sampled_from([1e9, 1e12]))
+        v = [unit * t for t in draw(st.lists(st.integers(-5000, 5000), min_size=n, max_size=n))]
     else:
         v = [1.5] * n
         v[draw(st.integers(0, n - 1))] = 4.0
@@ -45,7 +49,7 @@ def vector(draw, min_n=2, max_n=80, max_offset=7):
 def case_strategy(draw):
     which = draw(st.sampled_from(["center", "scale", "bs", "bs", "bs", "bs_invalid", "poly", "poly"]))
     if which in ("center", "scale"):
-        x = draw(vector())
+        x = draw(vector(tiny=True))
         later = draw(vector(min_n=1, max_n=10))
         return {"transform": which, "alias": draw(st.booleans()), "x": x, "later": later["values"]}
     if which == "poly":
@@ -129,12 +133,13 @@ def judge(ctx, case):
             frame = pd.DataFrame({"y": np.arange(n, dtype=float), "x": x, "a": a[:n], "b": b[:n]})
             new = pd.DataFrame({"x": later, "a": a[1: len(later) + 1], "b": b[2: len(later) + 2]})
             tol2 = 1e-9 * magnitude(x) / (1 if t == "center" else x.std())
-            for formula in (f"y ~ {name}(x)", f"y ~ {name}(x) + a:b:{name}(x)", f"y ~ 0 + a:{name}(x)"):
+            for formula in (f"y ~ {name}(x)", f"y ~ {name}(x) + a:b:{name}(x)", f"y ~ 0 + a:{name}(x)", f"y ~ (0 + {name}(x) | a)", f"y ~ ({name}(x) | b)"):
                 try:
                     with core.Guard():
                         dm = design_matrices(formula, frame)
-                        got = np.asarray(dm.common.evaluate_new_data(new).design_matrix, dtype=float)
-                        labels = [l for term in dm.common.terms.values() for l in term.labels]
+                        part = dm.group if "|" in formula else dm.common  # the term may be a group-specific effect
+                        got = np.asarray(part.evaluate_new_data(new).design_matrix, dtype=float)
+                        labels = [l for term in part.terms.values() for l in term.labels]
                 except Exception as e:  # pylint: disable=broad-except
                     ctx.fail(t, case, f"{formula!r} raised {type(e).__name__}: {e}", "design:" + core.exc_key(e))
                     continue
